@@ -51,6 +51,11 @@ Tiny(s, d) == [t |-> "num", c |-> "tiny", s |-> s, d |-> d]  \* s * d, d = "0.00
 TinyText  == "0.0000000000000001"                           \* 1e-16, below the machine epsilon
 (* any other decimal numeral of at most 15 significant digits (0.26, 123.45): the double nearest to it is printed back digit   *)
 (* for digit, distinct numerals are distinct doubles in the same order, and it is on the numeral's side of every n/64           *)
+(* the quotient of two small integers that is no multiple of 1/64 (5 over 3): which double it is, and how it prints, the model does *)
+(* not say; but it lies strictly between the same neighbours as the exact quotient, so its sign, its three roundings, its          *)
+(* truncation and its order against every n/64 and every other such quotient are determined                                      *)
+Rat(s, p, q) == [t |-> "num", c |-> "rat", s |-> s, p |-> p, q |-> q]   \* s * p / q ; 1 <= p, q <= MaxRat
+MaxRat == 32767
 Dec(s, d) == [t |-> "num", c |-> "dec", s |-> s, d |-> d]   \* s * d, d = canonical "ip.fp" (fp non-empty, no trailing zero), 1/100 <= d < 2^24, not a multiple of 1/64
 IntV(k)    == Fin(k * Den)
 Str(s)    == [t |-> "str", s |-> s]
@@ -108,12 +113,13 @@ NKind(v) ==      \* "nan" | "inexact" | "inf" | "huge" | "tiny" | "zero" | "fin"
     [] v.c = "big" -> "huge"
     [] v.c = "tiny" -> "tiny"
     [] v.c = "dec" -> "dec"
+    [] v.c = "rat" -> "rat"
     [] v.c = "nzero" -> "zero"
     [] v.c = "fin" -> IF v.n = 0 THEN "zero" ELSE "fin"
 
 NSign(v) ==      \* +1 | -1 ; meaningless for nan / inexact
   CASE v.c \in {"ninf", "nzero"} -> -1
-    [] v.c \in {"big", "tiny", "dec"} -> v.s
+    [] v.c \in {"big", "tiny", "dec", "rat"} -> v.s
     [] v.c = "fin" -> IF v.n < 0 THEN -1 ELSE 1
     [] OTHER -> 1
 
@@ -130,6 +136,7 @@ NumNeg(a) ==
     [] a.c = "big"   -> Big(-a.s, a.d)
     [] a.c = "tiny"  -> Tiny(-a.s, a.d)
     [] a.c = "dec"   -> Dec(-a.s, a.d)
+    [] a.c = "rat"   -> Rat(-a.s, a.p, a.q)
     [] OTHER -> a
 
 NumAdd(a, b) ==
@@ -145,7 +152,7 @@ NumAdd(a, b) ==
     [] ka = "zero" /\ kb = "zero" -> IF NSign(a) < 0 /\ NSign(b) < 0 THEN NZero ELSE Fin(0)
     [] ka = "zero" -> b
     [] kb = "zero" -> a
-    [] ka \in {"tiny", "dec"} \/ kb \in {"tiny", "dec"} -> Inexact
+    [] ka \in {"tiny", "dec", "rat"} \/ kb \in {"tiny", "dec", "rat"} -> Inexact
     [] OTHER -> MkFin(a.n + b.n)        \* x + (-x) = +0 under round-to-nearest
 
 NumSub(a, b) == NumAdd(a, NumNeg(b))     \* IEEE: x - y = x + (-y)
@@ -166,6 +173,9 @@ NumMul(a, b) ==
     [] ka = "dec" /\ kb = "fin" /\ Abs(b.n) = Den -> Dec(s, a.d)
     [] kb = "dec" /\ ka = "fin" /\ Abs(a.n) = Den -> Dec(s, b.d)
     [] ka = "dec" \/ kb = "dec" -> Inexact
+    [] ka = "rat" /\ kb = "fin" /\ Abs(b.n) = Den -> Rat(s, a.p, a.q)
+    [] kb = "rat" /\ ka = "fin" /\ Abs(a.n) = Den -> Rat(s, b.p, b.q)
+    [] ka = "rat" \/ kb = "rat" -> Inexact
     [] OTHER ->
         LET x == Abs(a.n) y == Abs(b.n) IN
         IF x % Den = 0 /\ (x \div Den) <= MaxN \div y THEN MkFin(s * ((x \div Den) * y))       \* an integer factor: no intermediate overflow
@@ -189,11 +199,16 @@ NumDiv(a, b) ==
     [] ka = "tiny" \/ kb = "tiny" -> Inexact
     [] ka = "dec" /\ kb = "fin" /\ Abs(b.n) = Den -> Dec(s, a.d)
     [] ka = "dec" \/ kb = "dec" -> Inexact
+    [] ka = "rat" /\ kb = "fin" /\ Abs(b.n) = Den -> Rat(s, a.p, a.q)
+    [] ka = "rat" \/ kb = "rat" -> Inexact
     [] OTHER ->
-        LET x == Abs(a.n) y == Abs(b.n) IN
-        IF x > MaxInt \div Den THEN Inexact
+        LET x == Abs(a.n) y == Abs(b.n)
+            \* two small integers whose quotient is no multiple of 1/64: a `rat`
+            asRat == IF x % Den = 0 /\ y % Den = 0 /\ x \div Den <= MaxRat /\ y \div Den <= MaxRat THEN Rat(s, x \div Den, y \div Den) ELSE Inexact
+        IN
+        IF x > MaxInt \div Den THEN asRat
         ELSE LET p == x * Den IN
-             IF p % y # 0 THEN Inexact ELSE MkFin(s * (p \div y))
+             IF p % y # 0 THEN asRat ELSE MkFin(s * (p \div y))
 
 (* the parts of a canonical decimal text "ip.fp" *)
 DecDot(d) == LET RECURSIVE F(_) F(i) == IF i > Len(d) THEN 0 ELSE IF CharAt(d, i) = "." THEN i ELSE F(i + 1) IN F(1)
@@ -207,6 +222,12 @@ NumRound(a, dir) ==      \* dir \in {"up", "down", "nearest"}
   IF a.c = "tiny" THEN (CASE dir = "nearest" -> Zero(a.s)
                           [] dir = "up"   -> IF a.s > 0 THEN IntV(1) ELSE NZero
                           [] dir = "down" -> IF a.s > 0 THEN Fin(0) ELSE IntV(-1))
+  ELSE IF a.c = "rat" THEN
+         (LET t == a.p \div a.q                                   \* magnitude rounded toward zero; never a tie (that would be a multiple of 1/64)
+              m == CASE dir = "nearest" -> IF 2 * (a.p % a.q) > a.q THEN t + 1 ELSE t
+                     [] dir = "up"      -> IF a.s > 0 THEN t + 1 ELSE t
+                     [] dir = "down"    -> IF a.s > 0 THEN t ELSE t + 1
+          IN IF m = 0 THEN Zero(a.s) ELSE MkFin(a.s * m * Den))
   ELSE IF a.c = "dec" THEN
          (LET ip == DecInt(a.d)                                   \* magnitude rounded toward zero
               half == DigitVal(CharAt(a.d, DecDot(a.d) + 1)) >= 5  \* a dec is never exactly half-way (that would be a multiple of 1/64)
@@ -253,8 +274,10 @@ NumEq(a, b) ==      \* "T" | "F" | "U"
   CASE ka = "nan" \/ kb = "nan" -> "F"
     [] ka = "inexact" \/ kb = "inexact" -> "U"
     [] ka = "zero" /\ kb = "zero" -> "T"
+    [] (ka = "rat" /\ kb \in {"dec", "tiny"}) \/ (kb = "rat" /\ ka \in {"dec", "tiny"}) -> "U"     \* 1 over 5 and 0.2 are the same double
     [] ka # kb -> "F"
     [] ka = "fin" -> IF a.n = b.n THEN "T" ELSE "F"
+    [] ka = "rat" /\ kb = "rat" -> IF a.s = b.s /\ a.p * b.q = b.p * a.q THEN "T" ELSE "F"
     [] ka \in {"huge", "tiny", "dec"} -> IF a.s = b.s /\ a.d = b.d THEN "T" ELSE "F"
     [] OTHER -> IF a.c = b.c THEN "T" ELSE "F"
 
@@ -272,6 +295,18 @@ NumCmp(a, b) ==     \* "lt" | "eq" | "gt" | "none" | "unk"
                   ELSE StrCmp(a.d, b.d)
          IN IF a.s > 0 THEN m ELSE (CASE m = "lt" -> "gt" [] m = "gt" -> "lt" [] OTHER -> "eq")
     [] Rank(a) # 0 -> "eq"
+    [] (ka = "rat" /\ kb \in {"dec", "tiny"}) \/ (kb = "rat" /\ ka \in {"dec", "tiny"}) -> "unk"
+    [] ka = "rat" \/ kb = "rat" ->      \* against a zero, an n/64 or another quotient: sign first, then integer part, then fraction by cross-multiplication
+         LET sg(v, k) == IF k = "zero" THEN 0 ELSE NSign(v)
+             x == sg(a, ka) y == sg(b, kb)
+             ip(v) == IF v.c = "rat" THEN v.p \div v.q ELSE Abs(v.n) \div Den           \* magnitude: integer part
+             fn(v) == IF v.c = "rat" THEN v.p % v.q ELSE Abs(v.n) % Den                  \* fraction numerator
+             fd(v) == IF v.c = "rat" THEN v.q ELSE Den                                  \* fraction denominator
+         IN IF x # y THEN (IF x < y THEN "lt" ELSE "gt")
+            ELSE IF x = 0 THEN "eq"
+            ELSE LET m == IF ip(a) # ip(b) THEN (IF ip(a) < ip(b) THEN "lt" ELSE "gt")
+                          ELSE LET l == fn(a) * fd(b) r == fn(b) * fd(a) IN IF l < r THEN "lt" ELSE IF l > r THEN "gt" ELSE "eq"
+                 IN IF x > 0 THEN m ELSE (CASE m = "lt" -> "gt" [] m = "gt" -> "lt" [] OTHER -> "eq")
     [] ka = "dec" \/ kb = "dec" ->      \* the middle band by decimal text: sign first (a zero has none), then magnitude
          LET sg(v, k) == IF k = "zero" THEN 0 ELSE NSign(v)
              x == sg(a, ka) y == sg(b, kb)
@@ -298,7 +333,7 @@ NumToStr(a) ==
     [] a.c = "ninf" -> "-inf"
     [] a.c = "nzero" -> "-0"
     [] a.c \in {"big", "tiny", "dec"} -> (IF a.s < 0 THEN "-" ELSE "") \o a.d
-    [] a.c = "inexact" -> "?"
+    [] a.c \in {"inexact", "rat"} -> "?"
     [] a.c = "fin" ->
         LET x == Abs(a.n)
             ip == NatToStr(x \div Den)
@@ -314,6 +349,7 @@ IndexOf(a) ==       \* [i, def]
     [] a.c = "big" -> IF a.s > 0 THEN [i |-> -1, def |-> TRUE] ELSE [i |-> 0, def |-> FALSE]
     [] a.c = "inexact" -> [i |-> 0, def |-> FALSE]
     [] a.c = "dec" -> [i |-> IF a.s < 0 THEN 0 ELSE DecInt(a.d), def |-> FALSE]
+    [] a.c = "rat" -> [i |-> IF a.s < 0 THEN 0 ELSE a.p \div a.q, def |-> FALSE]
     [] OTHER -> [i |-> 0, def |-> FALSE]          \* -0, NaN, -inf -> 0
 
 (* The number a poetic literal denotes, from its digits (Poetic.tla): sum of digit * 10^place in double arithmetic.  For an  *)
@@ -445,7 +481,7 @@ ScalarText(v) ==    \* text of a decayed value as `say` prints it and as string 
     [] v.t = "str1" -> "?"
 
 ToOutStr(v) == ScalarText(Decay(v))
-OutDetermined(v) == LET d == Decay(v) IN ~(d.t = "str1" \/ (d.t = "num" /\ d.c = "inexact"))
+OutDetermined(v) == LET d == Decay(v) IN ~(d.t = "str1" \/ (d.t = "num" /\ d.c \in {"inexact", "rat"}))
 
 -----------------------------------------------------------------------------
 (* dictionary keys: mysterious < null < false < true < strings by byte order *)
@@ -537,7 +573,7 @@ PlusCoerce(a, b) ==
     [] a.t = "arr" \/ b.t = "arr" -> <<Decay(a), Decay(b)>>
     [] OTHER -> <<a, b>>
 
-TextUnk(x) == x.t = "num" /\ x.c = "inexact"
+TextUnk(x) == x.t = "num" /\ x.c \in {"inexact", "rat"}
 
 Plus(a, b) ==
   IF a.t = "str1" \/ b.t = "str1" THEN Unk
@@ -573,6 +609,7 @@ Times(a, b) ==
                 [] NKind(k) = "zero" -> Str("")            \* also -0 : -0.0 >= 0.0
                 [] NSign(k) < 0 -> Myst
                 [] NKind(k) = "tiny" -> Str("")              \* truncated to zero repetitions
+                [] NKind(k) = "rat" -> IF k.p \div k.q > MaxRepeat THEN Blowup ELSE Str(Repeat(p[1].s, k.p \div k.q))   \* truncated
                 [] NKind(k) = "dec" -> IF DecInt(k.d) > MaxRepeat THEN Blowup ELSE Str(Repeat(p[1].s, DecInt(k.d)))   \* truncated
                 [] NKind(k) \in {"inf", "huge"} -> Blowup
                 [] OTHER -> IF k.n \div Den > MaxRepeat THEN Blowup ELSE Str(Repeat(p[1].s, k.n \div Den))
